@@ -11,6 +11,10 @@ def run(ctx):
         "G4 castling: generator and validator (fed the literal castling move) require exactly: the right, empty king/rook path, king "
         "square and transit square not attacked by the opponent - for both colours and sides",
         "G5 Move constructible safely only through new (gated), from_castling (well-formed, 4 cases), NULL; fields private",
+        "G6 the validator do_is_move_semilegal, evaluated on abstract boards for every well-formed (kind, cell, source, destination) "
+        "(all sources), accepts exactly under the chess conditions: "
+        "mover's man on the source, destination not own, pawn pushes need empty squares, captures an occupied one, en passant the mark "
+        "beside the pawn, sliders an empty path, castling the right + empty path + unattacked king squares",
         "WF Move::is_well_formed equals the geometric possibility predicate on all 10 x 13 x 64 x 64 tuples (exhaustive)",
     ]
     ctx.not_decided += ["generator <=> validator equivalence on all positions for non-castling moves, and that the generated set is exactly "
@@ -21,3 +25,4 @@ def run(ctx):
     genrules.castling_rule(ctx, facts, "G4")
     genrules.constructors_rule(ctx, facts, "G5")
     genrules.wellformed_rule(ctx, facts, "WF")
+    genrules.semilegal_rule(ctx, facts, "G6", thorough=True)
